@@ -102,8 +102,9 @@ WidthsOK(p, q) ==
 MatrixOK(p, q) ==
   IF p.kind = "glyf" THEN (p.fm_std => q.fm_std)
   ELSE /\ Len(q.font_matrix) = Len(p.font_matrix)
-       /\ \A i \in 1..Len(p.font_matrix) :
-            q.font_matrix[i].m = p.font_matrix[i].m /\ q.font_matrix[i].e = p.font_matrix[i].e
+       /\ \A i \in 1..Len(p.font_matrix) :       \* exact, or nine significant digits (either neighbour)
+            LET a == p.font_matrix[i]  b == q.font_matrix[i]
+            IN b.s = a.s \/ (b.e = a.e /\ b.m - a.m \in {-1, 0, 1})
 
 Fields == { "family", "width", "weight", "flags", "code_pages", "version", "created", "modified",
             "description", "sample_text", "copyright", "trademark", "license", "license_url", "perm_use",
